@@ -199,13 +199,14 @@ Lemma same_shape_lookup c c' n i : same_shape c c' → c !! n = Some i →
   ∃ i', c' !! n = Some i' ∧ n_ty i' = n_ty i ∧ n_out i' = n_out i.
 Proof.
   intros H Hn. specialize (H n). rewrite Hn in H. simpl in H.
-  destruct (c' !! n) as [i'|]; simplify_eq/=. unfold shape in H. simplify_eq. eauto.
+  destruct (c' !! n) as [i'|]; simpl in *; [|done]. unfold shape in H.
+  exists i'. repeat split; congruence.
 Qed.
 Lemma same_shape_ty c c' n : same_shape c c' → ty c n = ty c' n.
 Proof.
   intros H. unfold ty. specialize (H n).
-  destruct (c !! n) as [i|], (c' !! n) as [i'|]; simplify_eq/=; try done.
-  unfold shape in H. by simplify_eq.
+  destruct (c !! n) as [i|], (c' !! n) as [i'|]; simpl in *; try done.
+  unfold shape in H. congruence.
 Qed.
 Lemma same_shape_dom c c' : same_shape c c' → dom c = dom c'.
 Proof.
@@ -266,5 +267,266 @@ Proof.
   revert st. induction conns as [|kv conns IH]; intros st; simpl; [done|].
   eapply same_shape_trans; [apply IH|apply conn_step_shape].
 Qed.
+Lemma conn_fold_inputs SC name conns st : inputs (foldl (conn_step SC name) st conns).1 = inputs st.1.
+Proof. apply same_shape_inputs, conn_fold_shape. Qed.
+Lemma conn_fold_outputs SC name conns st : outputs (foldl (conn_step SC name) st conns).1 = outputs st.1.
+Proof. apply same_shape_outputs, conn_fold_shape. Qed.
+Lemma conn_fold_dom SC name conns st : dom (foldl (conn_step SC name) st conns).1 = dom st.1.
+Proof. apply same_shape_dom, conn_fold_shape. Qed.
 Lemma conn_fold_fail SC name conns g e : foldl (conn_step SC name) (g, Fail e) conns = (g, Fail e).
 Proof. induction conns as [|kv conns IH]; simpl; done. Qed.
+
+(* ---------- 7. semantics of the connections ---------- *)
+(* one source, many (nearly) free targets; duplicates in vs are harmless *)
+Lemma add_edges_sem y vs : ∀ c,
+  (∀ x, x ∈ vs → ∃ i, c !! x = Some i ∧ (n_ty i = Buf ∨ n_ty i = BbIn) ∧ n_fi i ⊆ {[y]}) →
+  ∀ v, consistent (foldl (λ c' (p : string * string), add_edge c' p.1 p.2) c ((λ x, (y, x)) <$> vs)) v
+       ↔ consistent c v ∧ ∀ x, x ∈ vs → v x = v y.
+Proof.
+  induction vs as [|x vs IH]; intros c Hfree v; simpl.
+  - split; [|tauto]. intros H. split; [done|]. intros x Hx. by apply elem_of_nil in Hx.
+  - destruct (Hfree x) as (i & Hx & Hty & Hfi); [by left|].
+    rewrite IH.
+    + rewrite (drive_node c y x i v Hx Hty Hfi). split.
+      * intros [[Hc Hv] Hall]. split; [done|]. intros z [->|Hz]%elem_of_cons; auto.
+      * intros [Hc Hall]. split; [split; [done|]|].
+        -- apply Hall. by left.
+        -- intros z Hz. apply Hall. by right.
+    + intros z Hz. destruct (Hfree z) as (j & Hj & Htj & Hfj); [by right|].
+      unfold add_edge. destruct (decide (z = x)) as [->|Hne].
+      * rewrite lookup_alter, Hx. simpl. eexists. split; [done|]. unfold upd_fi; simpl.
+        split; [done|]. clear -Hfi. set_solver.
+      * rewrite lookup_alter_ne by done. eauto.
+Qed.
+
+Lemma fanin_empty c x i : c !! x = Some i → size (fanin c x) = 0 → n_fi i = ∅.
+Proof.
+  intros Hx Hs. apply size_empty_inv in Hs. apply leibniz_equiv in Hs.
+  unfold fanin in Hs. by rewrite Hx in Hs.
+Qed.
+
+(* the target check of connect: a Buf/BbIn target accepts at most one driver in total *)
+Lemma connect_check_target c us vs x i :
+  connect_check c us vs = true → x ∈ vs → c !! x = Some i → (n_ty i = Buf ∨ n_ty i = BbIn) →
+  size (fanin c x) + length us ≤ 1.
+Proof.
+  unfold connect_check. intros [H1 _]%andb_true_iff Hx Hi Hty.
+  apply negb_true_iff in H1. pose proof (existsb_false _ _ H1 x Hx) as H. simpl in H.
+  apply orb_false_elim in H as [_ H].
+  assert (is_in (ty c x) conn_single_fanin = true) as Hin.
+  { unfold ty. rewrite Hi. simpl. destruct Hty as [-> | ->]; reflexivity. }
+  rewrite Hin in H. simpl in H. apply Nat.ltb_ge in H. done.
+Qed.
+
+Lemma connect_out_sem c y vs c' :
+  (∀ x, x ∈ vs → ∃ i, c !! x = Some i ∧ (n_ty i = Buf ∨ n_ty i = BbIn)) →
+  connect_g c [y] vs = (c', Done) →
+  ∀ v, consistent c' v ↔ consistent c v ∧ ∀ x, x ∈ vs → v x = v y.
+Proof.
+  intros Hty. unfold connect_g. rewrite pairs_singleton_l.
+  rewrite (bool_decide_eq_false_2 ([y] = [])) by done. rewrite orb_false_l.
+  case_bool_decide as Hvs.
+  { intros [= <-] v. subst vs. split; [|tauto]. intros H. split; [done|].
+    intros x Hx. by apply elem_of_nil in Hx. }
+  destruct (negb (forallb _ _)); [done|].
+  destruct (connect_check c [y] vs) eqn:Hck; simpl; [|done].
+  intros [= <-] v. apply add_edges_sem.
+  intros x Hx. destruct (Hty x Hx) as (i & Hi & Ht). exists i. split; [done|]. split; [done|].
+  pose proof (connect_check_target c [y] vs x i Hck Hx Hi Ht) as Hle. simpl in Hle.
+  rewrite (fanin_empty c x i Hi) by lia. set_solver.
+Qed.
+
+Lemma connect_in_sem c us x c' i :
+  c !! x = Some i → (n_ty i = Buf ∨ n_ty i = BbIn) →
+  connect_g c us [x] = (c', Done) →
+  ∀ v, consistent c' v ↔ consistent c v ∧ ∀ u, u ∈ us → v x = v u.
+Proof.
+  intros Hi Hty Hc.
+  destruct us as [|u us].
+  { unfold connect_g in Hc. simpl in Hc. simplify_eq. intros v. split; [|tauto]. intros H. split; [done|].
+    intros x' Hx'. by apply elem_of_nil in Hx'. }
+  assert (us = []) as ->.
+  { unfold connect_g in Hc.
+    rewrite (bool_decide_eq_false_2 (u :: us = [])), (bool_decide_eq_false_2 ([x] = [])) in Hc by done.
+    cbn [orb] in Hc. destruct (negb (forallb _ _)); [done|].
+    destruct (connect_check c (u :: us) [x]) eqn:Hck; [|done].
+    assert (x ∈ [x]) as Hx by (by left).
+    pose proof (connect_check_target c (u :: us) [x] x i Hck Hx Hi Hty) as Hle. simpl in Hle.
+    destruct us; [done|]. simpl in Hle. lia. }
+  intros v. rewrite (connect_out_sem c u [x] c'); [|by intros z ->%elem_of_list_singleton; eauto|done].
+  split; intros [Hcv H]; (split; [done|]).
+  - intros z ->%elem_of_list_singleton. apply H. by left.
+  - intros z ->%elem_of_list_singleton. apply H. by left.
+Qed.
+
+(* the whole connection fold *)
+Lemma conn_fold_sem SC name g2 :
+  (∀ io, io ∈ inputs (c_g SC) → ty g2 (pre name io) = Some Buf) →
+  ∀ conns,
+  (∀ kv net, kv ∈ conns → kv.1 ∉ inputs (c_g SC) → net ∈ kv.2 → ty g2 net = Some Buf ∨ ty g2 net = Some BbIn) →
+  ∀ g g', same_shape g g2 →
+  foldl (conn_step SC name) (g, Done) conns = (g', Done) →
+  ∀ v, consistent g' v ↔ consistent g v ∧ Forall (conn_ok SC name v) conns.
+Proof.
+  intros Hin. induction conns as [|kv conns IH]; intros Hout g g' Hsh Hf v.
+  { simpl in Hf. simplify_eq. split; [|tauto]. intros H. split; [done|]. constructor. }
+  change (foldl (conn_step SC name) (conn_step SC name (g, Done) kv) conns = (g', Done)) in Hf.
+  destruct (conn_step SC name (g, Done) kv) as [g1 o1] eqn:Hstep.
+  destruct o1 as [|e]; [|by rewrite conn_fold_fail in Hf].
+  assert (Hsh1 : same_shape g1 g2).
+  { eapply same_shape_trans; [|exact Hsh]. pose proof (conn_step_shape SC name (g, Done) kv) as H.
+    by rewrite Hstep in H. }
+  rewrite (IH (λ kv' net Hkv, Hout kv' net (elem_of_list_further _ _ _ Hkv)) g1 g' Hsh1 Hf v).
+  rewrite Forall_cons.
+  assert (Hone : consistent g1 v ↔ consistent g v ∧ conn_ok SC name v kv); [|tauto].
+  assert (Hty : ∀ n t, ty g2 n = Some t → ∃ i, g !! n = Some i ∧ n_ty i = t).
+  { intros n t Ht. rewrite <- (same_shape_ty _ _ n Hsh) in Ht. unfold ty in Ht.
+    destruct (g !! n) as [i|]; simplify_eq/=. eauto. }
+  unfold conn_step in Hstep. unfold conn_ok. case_bool_decide as Hio.
+  - destruct (Hty _ _ (Hin _ Hio)) as (i & Hi & Ht).
+    rewrite (connect_in_sem g kv.2 (pre name kv.1) g1 i Hi (or_introl Ht) Hstep v).
+    split; intros [Hc H]; (split; [done|]).
+    + intros net Hnet. split; [intros _; by apply H|done].
+    + intros u Hu. by apply H.
+  - rewrite (connect_out_sem g (pre name kv.1) kv.2 g1); [| |exact Hstep].
+    + split; intros [Hc H]; (split; [done|]).
+      * intros net Hnet. split; [done|intros _; by apply H].
+      * intros x Hx. by apply H.
+    + intros x Hx. destruct (Hout kv x) as [Hb|Hb]; [by left|done|done| |];
+        destruct (Hty _ _ Hb) as (i & Hi & Ht); eauto.
+Qed.
+
+(* ---------- add_subcircuit unpacked ---------- *)
+Lemma add_subcircuit_unfold C SC name conns :
+  add_subcircuit C SC name conns =
+  if existsb (λ b, bool_decide (pre name b ∈ dom (c_bbs C))) (elements (dom (c_bbs SC))) then (C, Fail ValueError) else
+  if existsb (λ n, bool_decide (pre name n ∈ dom (c_g C))) (elements (dom (c_g SC))) then (C, Fail ValueError) else
+  if existsb (λ kv : string * list string,
+                negb (bool_decide (kv.1 ∈ inputs (c_g SC))) && negb (bool_decide (kv.1 ∈ outputs (c_g SC)))) conns
+  then (C, Fail ValueError) else
+  let g0 := update_g (c_g C) (rename_g (pre name) (c_g SC)) in
+  let g1 := set_fold (λ n g, alter (retype Buf) (pre name n) g) g0 (inputs (c_g SC)) in
+  let g2 := set_fold (λ n g, alter unmark (pre name n) g) g1 (outputs (c_g SC)) in
+  let r := foldl (conn_step SC name) (g2, Done) conns in
+  match r.2 with
+  | Fail ValueError =>
+      ({| c_name := c_name C; c_g := remove_g r.1 (pre name <$> elements (dom (c_g SC))); c_bbs := c_bbs C |}, r.2)
+  | _ => ({| c_name := c_name C; c_g := r.1;
+             c_bbs := map_fold (λ b d acc, <[pre name b := d]> acc) (c_bbs C) (c_bbs SC) |}, r.2)
+  end.
+Proof. reflexivity. Qed.
+
+Lemma add_subcircuit_inv P SC name conns P' :
+  add_subcircuit P SC name conns = (P', Done) →
+  (∀ b, b ∈ dom (c_bbs SC) → pre name b ∉ dom (c_bbs P)) ∧
+  (∀ n, n ∈ dom (c_g SC) → pre name n ∉ dom (c_g P)) ∧
+  (∀ kv, kv ∈ conns → kv.1 ∈ inputs (c_g SC) ∨ kv.1 ∈ outputs (c_g SC)) ∧
+  c_name P' = c_name P ∧
+  c_bbs P' = kmap (pre name) (c_bbs SC) ∪ c_bbs P ∧
+  foldl (conn_step SC name) (c_g P ∪ rename (pre name) (strip_io (c_g SC)), Done) conns = (c_g P', Done).
+Proof.
+  rewrite add_subcircuit_unfold.
+  destruct (existsb _ (elements (dom (c_bbs SC)))) eqn:E1; [done|].
+  destruct (existsb _ (elements (dom (c_g SC)))) eqn:E2; [done|].
+  destruct (existsb _ conns) eqn:E3; [done|].
+  assert (H1 : ∀ b, b ∈ dom (c_bbs SC) → pre name b ∉ dom (c_bbs P)).
+  { intros b Hb. pose proof (existsb_false _ _ E1 b) as H. simpl in H.
+    eapply bool_decide_eq_false_1. apply H. by apply elem_of_elements. }
+  assert (H2 : ∀ n, n ∈ dom (c_g SC) → pre name n ∉ dom (c_g P)).
+  { intros n Hn. pose proof (existsb_false _ _ E2 n) as H. simpl in H.
+    eapply bool_decide_eq_false_1. apply H. by apply elem_of_elements. }
+  assert (H3 : ∀ kv, kv ∈ conns → kv.1 ∈ inputs (c_g SC) ∨ kv.1 ∈ outputs (c_g SC)).
+  { intros kv Hkv. pose proof (existsb_false _ _ E3 kv Hkv) as H. simpl in H.
+    apply andb_false_iff in H as [H|H]; apply negb_false_iff, bool_decide_eq_true in H; auto. }
+  pose proof (spliced_graph P SC name H2) as Hg. cbv zeta in Hg.
+  cbv zeta. rewrite Hg. rewrite registry_fold.
+  destruct (foldl (conn_step SC name) _ conns) as [g' o] eqn:Hf. simpl.
+  destruct o as [|e]; [|destruct e; done].
+  intros [= <-]. simpl. done.
+Qed.
+
+Lemma dom_spliced P SC name :
+  dom (c_g P ∪ rename (pre name) (strip_io (c_g SC))) = dom (c_g P) ∪ set_map (pre name) (dom (c_g SC)).
+Proof.
+  rewrite dom_union_L, dom_rename by apply _. unfold strip_io. by rewrite dom_fmap_L.
+Qed.
+
+Lemma spliced_lookup_child P SC name k j :
+  (∀ n, n ∈ dom (c_g SC) → pre name n ∉ dom (c_g P)) →
+  (c_g P ∪ rename (pre name) (strip_io (c_g SC))) !! k = Some j →
+  c_g P !! k = Some j ∨
+  ∃ n i, k = pre name n ∧ c_g SC !! n = Some i ∧ j = ren_info (pre name) (strip_info i).
+Proof.
+  intros Hfresh [Hl|[_ Hr]]%lookup_union_Some_raw; [by left|right].
+  apply lookup_rename_Some in Hr as (n & i & -> & Hn & ->); [|apply _].
+  unfold strip_io in Hn. rewrite lookup_fmap in Hn.
+  destruct (c_g SC !! n) as [i0|] eqn:Hi; simplify_eq/=. eauto.
+Qed.
+
+Lemma inputs_spliced P SC name :
+  (∀ n, n ∈ dom (c_g SC) → pre name n ∉ dom (c_g P)) →
+  inputs (c_g P ∪ rename (pre name) (strip_io (c_g SC))) = inputs (c_g P).
+Proof.
+  intros Hfresh. apply set_eq. intros k. rewrite !elem_of_inputs. split.
+  - intros (j & Hj & Ht). destruct (spliced_lookup_child P SC name k j Hfresh Hj) as [Hj'|(n & i & -> & Hn & ->)]; [eauto|].
+    exfalso. simpl in Ht. case_bool_decide; congruence.
+  - intros (j & Hj & Ht). exists j. split; [|done]. by apply lookup_union_Some_l.
+Qed.
+Lemma outputs_spliced P SC name :
+  (∀ n, n ∈ dom (c_g SC) → pre name n ∉ dom (c_g P)) →
+  outputs (c_g P ∪ rename (pre name) (strip_io (c_g SC))) = outputs (c_g P).
+Proof.
+  intros Hfresh. apply set_eq. intros k. rewrite !elem_of_outputs. split.
+  - intros (j & Hj & Ht). destruct (spliced_lookup_child P SC name k j Hfresh Hj) as [Hj'|(n & i & -> & Hn & ->)]; [eauto|].
+    exfalso. simpl in Ht. done.
+  - intros (j & Hj & Ht). exists j. split; [|done]. by apply lookup_union_Some_l.
+Qed.
+
+(* ---------- FINAL THEOREMS ---------- *)
+Theorem add_subcircuit_struct P SC name conns P' :
+  add_subcircuit P SC name conns = (P', Done) →
+  c_name P' = c_name P ∧
+  c_bbs P' = kmap (pre name) (c_bbs SC) ∪ c_bbs P ∧
+  (∀ b d, c_bbs SC !! b = Some d → c_bbs P' !! pre name b = Some d) ∧
+  (∀ b d, c_bbs P !! b = Some d → c_bbs P' !! b = Some d) ∧
+  inputs (c_g P') = inputs (c_g P) ∧ outputs (c_g P') = outputs (c_g P) ∧
+  dom (c_g P') = dom (c_g P) ∪ set_map (pre name) (dom (c_g SC)).
+Proof.
+  intros (Hbb & Hfresh & _ & Hname & Hbbs & Hf)%add_subcircuit_inv.
+  pose proof (conn_fold_shape SC name conns (c_g P ∪ rename (pre name) (strip_io (c_g SC)), Done)) as Hsh.
+  rewrite Hf in Hsh. simpl in Hsh.
+  split; [done|]. split; [done|]. split; [|split]; [| |split; [|split]].
+  - intros b d Hb. rewrite Hbbs. apply lookup_union_Some_l. rewrite lookup_kmap by apply _. done.
+  - intros b d Hb. rewrite Hbbs. rewrite lookup_union_r; [done|].
+    apply lookup_kmap_None; [apply _|]. intros b' ->.
+    destruct (c_bbs SC !! b') as [d'|] eqn:Hb'; [|done]. exfalso.
+    apply (Hbb b'); apply elem_of_dom; eauto.
+  - rewrite (same_shape_inputs _ _ Hsh). by apply inputs_spliced.
+  - rewrite (same_shape_outputs _ _ Hsh). by apply outputs_spliced.
+  - rewrite (same_shape_dom _ _ Hsh). apply dom_spliced.
+Qed.
+
+Theorem add_subcircuit_sem P SC name conns P' :
+  add_subcircuit P SC name conns = (P', Done) → out_targets_free P SC conns →
+  ∀ v, consistent (c_g P') v ↔
+       consistent (c_g P) v ∧ consistent (strip_io (c_g SC)) (v ∘ pre name) ∧ Forall (conn_ok SC name v) conns.
+Proof.
+  intros (_ & Hfresh & _ & _ & _ & Hf)%add_subcircuit_inv Hfree v.
+  set (g2 := c_g P ∪ rename (pre name) (strip_io (c_g SC))) in *.
+  assert (Hdisj : dom (c_g P) ## dom (rename (pre name) (strip_io (c_g SC)))).
+  { rewrite dom_rename by apply _. unfold strip_io. rewrite dom_fmap_L.
+    intros k Hk (n & -> & Hn)%elem_of_map. by apply (Hfresh n). }
+  rewrite (conn_fold_sem SC name g2) with (conns := conns) (g := g2) (g' := c_g P');
+    [| | |apply same_shape_refl|exact Hf].
+  - unfold g2. rewrite consistent_union by done. rewrite consistent_rename by apply _. tauto.
+  - (* child inputs are buffers in the spliced graph *)
+    intros io (i & Hi & Hty)%elem_of_inputs. unfold ty, g2.
+    rewrite lookup_union_r.
+    + rewrite lookup_rename by apply _. unfold strip_io. rewrite lookup_fmap, Hi. simpl.
+      by rewrite Hty, bool_decide_eq_true_2.
+    + apply not_elem_of_dom. apply Hfresh. apply elem_of_dom. eauto.
+  - (* targets of child outputs are free buffers of the parent, untouched by the splice *)
+    intros kv net Hkv Hio Hnet. destruct (Hfree kv net Hkv Hio Hnet) as (i & Hi & Hty & _).
+    unfold ty, g2. rewrite (lookup_union_Some_l _ _ _ _ Hi). simpl.
+    destruct Hty as [-> | ->]; auto.
+Qed.
